@@ -17,7 +17,7 @@ use std::time::Duration;
 pub static INFO: PropInfo = PropInfo {
     id: "C20",
     level: "exploration",
-    rule: "one evaluation = one session of the real NetcodeServerTransport and 1-5 NetcodeClientTransports over 127.0.0.1 UDP sockets, single-threaded with virtual durations, through an in-path relay (one front socket the clients believe is the server, one back socket per client) that applies a seeded schedule to the real datagrams: drop, duplicate, delay / reorder, replay of old datagrams, bit corruption; applications submit messages on all three channel kinds both ways, disconnect from either side / either layer at seeded ticks, and reconnect with the same client id; secure and unsecure authentication. Oracles: right after every NetcodeServerTransport::update the server has no disconnected-but-present connection, the message layer's connected ids equal the ids the transport has an address for, and both counts agree; ServerEvents per id alternate Connected/Disconnected starting with Connected; every application- or peer-initiated disconnect is visible on the other side within timeout + 1 s of virtual time; every obtained message is a byte-identical submission of the same client / channel, in order on ordered channels and at most once on reliable ones; in interference-only runs (every timeout window sees a genuine datagram delivered each way) no session ends unless an application asked for it; every datagram seen by the relay is <= 1400 bytes. Non-trivial = the relay interfered (drop/dup/delay/replay/corrupt) AND at least one client connected AND at least one disconnect was propagated; distinct = fingerprints of the session history (connects, disconnects, message counts). In half of the clean-relay runs one client (with an id of its own) is MUTED: the relay drops every server-to-client session datagram for it, so the server holds its session while the client is still answering the challenge; its application then disconnects (client or transport API) and the server side must be gone within 6 ticks.",
+    rule: "one evaluation = one session of the real NetcodeServerTransport and 1-5 NetcodeClientTransports over 127.0.0.1 UDP sockets, single-threaded with virtual durations, through an in-path relay (one front socket the clients believe is the server, one back socket per client) that applies a seeded schedule to the real datagrams: drop, duplicate, delay / reorder, replay of old datagrams, bit corruption; applications submit messages on all three channel kinds both ways, disconnect from either side / either layer at seeded ticks, and reconnect with the same client id; secure and unsecure authentication. Oracles: right after every NetcodeServerTransport::update the server has no disconnected-but-present connection, the message layer's connected ids equal the ids the transport has an address for, and both counts agree; ServerEvents per id alternate Connected/Disconnected starting with Connected; every application- or peer-initiated disconnect is visible on the other side within timeout + 1 s of virtual time; every obtained message is a byte-identical submission of the same client / channel, in order on ordered channels and at most once on reliable ones; in interference-only runs (every timeout window sees a genuine datagram delivered each way) no session ends unless an application asked for it; every datagram seen by the relay is <= 1400 bytes. Non-trivial = the relay interfered (drop/dup/delay/replay/corrupt) AND at least one client connected AND at least one disconnect was propagated; distinct = fingerprints of the session history (connects, disconnects, message counts). In half of the clean-relay runs one client (with an id of its own) is MUTED: the relay drops every server-to-client session datagram for it, so the server holds its session while the client is still answering the challenge; its application then disconnects (client or transport API) and the server side must be gone within 6 ticks. A quarter of the runs end their fault phase with a SERVER SHUTDOWN: 0-2 message-layer kicks (RenetServer::disconnect) are left pending and NetcodeServerTransport::disconnect_all is called in the same frame; the netcode layer must be empty at once, every session gets its ClientDisconnected and every client ends. At the end of every run the last event per id must agree with both layers.",
     assumptions: &[
         "single-threaded endpoints, loopback delivery is effectively synchronous; a datagram the relay misses arrives one tick later (a legal delay)",
         "bounds are on virtual time (durations passed to update), never wall-clock",
@@ -41,6 +41,8 @@ pub static INFO: PropInfo = PropInfo {
         ("runs_with_same_id_twin", 20),
         ("silenced_client_timed_out", 5),
         ("disconnect_during_handshake_with_server_session", 5),
+        ("shutdown_disconnect_all", 20),
+        ("shutdown_message_layer_kick_pending", 10),
     ],
     engines_quick: &["e1"],
     engines_thorough: &["e1", "e3"],
@@ -338,6 +340,7 @@ fn one_run_inner(ctx: &Ctx, out: &mut Outcome, run_seed: u64) {
             out.count("runs_with_muted_client");
         }
     }
+    let shutdown_run = r.chance(1, 4);
     let total_ticks = r.range(60, if ctx.thorough() { 600 } else { 260 });
     let settle_from = total_ticks; // after this: relay is clean, no new actions
     let timeout_ms = timeout_s as u64 * 1000;
@@ -473,6 +476,39 @@ fn one_run_inner(ctx: &Ctx, out: &mut Outcome, run_seed: u64) {
             }
         }
 
+        // ---- server shutdown at the end of the fault phase (some runs) ----------------------------------
+        // The application kicks 0-2 clients at the message layer and, in the same frame, closes everything through the
+        // transport (NetcodeServerTransport::disconnect_all, "use this when closing/exiting games"): both layers must
+        // be empty right away, every session gets its ClientDisconnected, every client learns of it.
+        if shutdown_run && w.tick == settle_from {
+            let mut ids: Vec<u64> = w.server.clients_id();
+            ids.sort_unstable();
+            let n_kick = r.urange(0, 2).min(ids.len());
+            for id in ids.iter().take(n_kick) {
+                w.server.disconnect(*id);
+                out.count("shutdown_message_layer_kick_pending");
+            }
+            w.log(format!("SHUTDOWN: {} message-layer kicks pending, then transport.disconnect_all", n_kick));
+            w.st.disconnect_all(&mut w.server);
+            out.count("shutdown_disconnect_all");
+            let left_netcode = w.st.connected_clients();
+            let still: Vec<u64> = w.peers.iter().map(|p| p.id).filter(|id| w.st.client_addr(*id).is_some()).collect();
+            if left_netcode != 0 || !still.is_empty() {
+                viol(ctx, out, &w, run_seed, "C20/shutdown/netcode-session-left", "a disconnect decided by either layer ends the session on both sides", format!("after disconnect_all the netcode layer still holds {} session(s) {:?} ({} message-layer kicks were pending)", left_netcode, still, n_kick));
+                return;
+            }
+            for k in 0..w.peers.len() {
+                if !w.peers[k].app_closed {
+                    let p = &mut w.peers[k];
+                    p.app_closed = true;
+                    p.closed_at_ms = Some(w.now_ms);
+                    p.closed_by = "server_shutdown";
+                    if p.connected_seen {
+                        pending_closed_checks.push((k, p.generation, u64::MAX, "server_shutdown"));
+                    }
+                }
+            }
+        }
         // ---- silenced peer: stale handshake replays must not postpone its timeout ------------------
         if let Some((k, g)) = w.silenced {
             if w.peers[k].generation != g || !faults_on {
@@ -786,6 +822,15 @@ fn one_run_inner(ctx: &Ctx, out: &mut Outcome, run_seed: u64) {
         propagated += 1;
         out.count("disconnect_propagated");
         out.count("disconnect_propagated_by_timeout_or_late");
+    }
+    // ---- end of run: the application's view (events) agrees with both layers ---------------------------
+    for (id, connected) in w.ev_state.iter() {
+        let both = w.server.is_connected(*id) && w.st.client_addr(*id).is_some();
+        if *connected != both {
+            let (id, connected) = (*id, *connected);
+            viol(ctx, out, &w, run_seed, "C20/events/end-state-differs", "each connect and disconnect reaches the application exactly once with the right id", format!("the last event for id {} says connected={} but at the end of the run the layers hold the session: {}", id, connected, both));
+            return;
+        }
     }
     // ---- end of run: reliable messages of sessions that stayed up must all have arrived ----------
     for k in 0..w.peers.len() {
